@@ -204,6 +204,12 @@ def Doomed : Bytes → Nat → List Phase → Prop
 
 def DoomedSt (s : St) (o : Op) : Prop := Doomed (unread s o) (budget s o) o.prog
 
+/-- the program still has a `ReadUntil*` loop ahead of it -/
+def hasRead : List Phase → Bool
+  | [] => false
+  | .read _ :: _ => true
+  | .write _ _ :: rest => hasRead rest
+
 /-! ## the standard operations as programs -/
 
 /-- `Channel.SendInputB` -/
